@@ -431,6 +431,20 @@ class SimDatagramTransport(asyncio.DatagramTransport):
             return self.sock
         return default
 
+    def report_error(self, exc):
+        """The OS reports an error for this socket (a failed sendto(), an ICMP port
+        unreachable): asyncio hands it to the protocol's error_received()."""
+        if self.closed:
+            return False
+        self.net.log.add("UDP.error", exc=repr(exc), port=getattr(self.sock, "bound", None))
+
+        def cb():
+            if not self.closed:
+                self._protocol.error_received(exc)
+
+        self._loop.call_soon(cb)
+        return True
+
     # peer side
     def deliver(self, data, addr):
         """Datagram arrives from the network (like _read_ready: the protocol
